@@ -18,6 +18,11 @@ of the delimiter is longer than MAX_LENGTH) and then either behaviour is accepte
 stream ending in `<digits>\\n` may or may not be closed yet (the `$` of the partial-length regex
 matches before a final newline; the next byte decides); raw events are recorded when the
 application callback *returns* (after setLineMode(rest)) so that re-entrant delivery is visible.
+Re-entrant application calls: `T` = pauseProducing()+resumeProducing() inside lineReceived /
+stringReceived, `X<n>`/`Q<n>` = raw mode for n bytes, then loseConnection() / pauseProducing() from
+inside rawDataReceived; a delivery made while another delivery callback is still on the stack is
+recorded as a `nested` event (the reference never has one).  Re-use of an instance for a second
+connection is judged for NetstringReceiver only (its makeConnection re-initialises by contract).
 """
 import itertools
 
@@ -41,7 +46,8 @@ ASSUMPTIONS = ["trusted base: the reference framers in this module (lines split 
 SHARDS = {"quick": 4, "thorough": 16}
 FLOORS = {"split_runs": 20000, "ref_compares": 20000, "lines_at_max": 200, "oversize_expected": 200,
           "delimiter_split_runs": 500, "sendrecv_messages": 500, "send_refusals": 3,
-          "raw_switches": 100, "pauses": 100, "netstring_invalid": 100}
+          "raw_switches": 100, "pauses": 100, "netstring_invalid": 100, "reentrant_toggles": 300, "raw_then_close_or_pause": 50,
+          "reuse_runs_judged": 300}
 READY = True
 
 KINDS = ("lineonly", "line", "netstring", "int8", "int16", "int32")
@@ -59,10 +65,12 @@ def interpret(line):
         return "close"
     if line == b"P":
         return "pause"
-    if len(line) >= 2 and line[:1] == b"R" and line[1:].isdigit() and len(line) <= 4:
+    if line == b"T":
+        return "toggle"  # pauseProducing() immediately followed by resumeProducing(), inside the callback
+    if len(line) >= 2 and line[:1] in b"RXQ" and line[1:].isdigit() and len(line) <= 4:
         n = int(line[1:])
-        if n > 0:
-            return n
+        if n > 0:  # raw mode for n bytes; X: then close, Q: then pause (both at the moment the raw data is complete)
+            return (n, {b"R": "", b"X": "close", b"Q": "pause"}[line[:1]])
     return None
 
 
@@ -114,24 +122,50 @@ def _build_classes():
 
     class Line(basic.LineReceiver):
         remaining = 0
+        after = ""
+        depth = 0
 
         def lineReceived(self, line):
+            if self.depth:
+                self.ev.append(("nested",))  # delivered while another delivery callback is still running
             self.ev.append(("line", line))
-            c = interpret(line)
-            if c == "close":
-                self.transport.loseConnection()
-            elif c == "pause":
-                self.pauseProducing()
-            elif c is not None:
-                self.remaining = c
-                self.setRawMode()
+            if self.depth:
+                return
+            self.depth += 1
+            try:
+                c = interpret(line)
+                if c == "close":
+                    self.transport.loseConnection()
+                elif c == "pause":
+                    self.pauseProducing()
+                elif c == "toggle":
+                    self.pauseProducing()
+                    self.resumeProducing()
+                elif c is not None:
+                    self.remaining, self.after = c
+                    self.setRawMode()
+            finally:
+                self.depth -= 1
 
         def rawDataReceived(self, data):
-            take, rest = data[: self.remaining], data[self.remaining:]
-            self.remaining -= len(take)
-            if self.remaining == 0:
-                self.setLineMode(rest)
-            self.ev.append(("raw", take))  # at exit on purpose (see module docstring)
+            if self.depth:
+                self.ev.append(("nested",))
+            self.depth += 1
+            try:
+                take, rest = data[: self.remaining], data[self.remaining:]
+                self.remaining -= len(take)
+                if self.remaining == 0:
+                    if self.after == "close":
+                        self.ev.append(("raw", take))
+                        self.setLineMode(rest)
+                        self.transport.loseConnection()
+                        return
+                    self.setLineMode(rest)
+                    if self.after == "pause":
+                        self.pauseProducing()
+                self.ev.append(("raw", take))  # at exit on purpose (see module docstring)
+            finally:
+                self.depth -= 1
 
         def lineLengthExceeded(self, line):
             self.ev.append(("exceeded", bytes(line)))
@@ -145,12 +179,25 @@ def _build_classes():
 
     def intn(base):
         class IntN(base):
+            depth = 0
+
             def stringReceived(self, s):
+                if self.depth:
+                    self.ev.append(("nested",))
                 self.ev.append(("string", s))
-                if s == b"C":
-                    self.transport.loseConnection()
-                elif s == b"P":
-                    self.pauseProducing()
+                if self.depth:
+                    return  # a nested delivery is already a violation; do not recurse further
+                self.depth += 1
+                try:
+                    if s == b"C":
+                        self.transport.loseConnection()
+                    elif s == b"P":
+                        self.pauseProducing()
+                    elif s == b"T":
+                        self.pauseProducing()
+                        self.resumeProducing()
+                finally:
+                    self.depth -= 1
 
             def lengthLimitExceeded(self, length):
                 self.ev.append(("exceeded", length))
@@ -242,11 +289,13 @@ def ref_lines(stream, maxlen, delim, full):
         c = interpret(line)
         if c == "close":
             return ev + [("close",)], False
-        if full and isinstance(c, int):
-            take = stream[i:i + c]
+        if full and isinstance(c, tuple):
+            take = stream[i:i + c[0]]
             if take:
                 ev.append(("raw", take))
             i += len(take)
+            if len(take) == c[0] and c[1] == "close":
+                return ev + [("close",)], False
     return ev, False
 
 
@@ -327,7 +376,7 @@ def _content(rng, n, delim, alphabet):
 
 def gen_line_stream(rng, kind, cfg):
     maxlen, delim = cfg
-    alphabet = b"xyz" + delim + (b"CPR1" if rng.random() < 0.3 else b"")
+    alphabet = b"xyz" + delim + (b"CPTRQX1" if rng.random() < 0.3 else b"")
     items = []
     big = maxlen > 100
     nitems = rng.randint(1, 3 if big else 7)
@@ -335,11 +384,11 @@ def gen_line_stream(rng, kind, cfg):
     for k in range(nitems):
         r = rng.random()
         if r < 0.12:
-            items.append(b"C" + delim if rng.random() < 0.3 else (b"P" + delim if kind == "line" else b"x" + delim))
+            items.append(b"C" + delim if rng.random() < 0.3 else (rng.choice([b"P", b"P", b"T", b"T"]) + delim if kind == "line" else b"x" + delim))
         elif r < 0.27 and kind == "line" and maxlen >= 2:
             n = rng.choice([1, 2, 3, 5, 9])
             raw = bytes(rng.choice(b"qw" + delim + b"\x00") for _ in range(rng.choice([n, n, n, max(0, n - 1)])))
-            items.append(b"R%d" % n + delim + raw)
+            items.append(rng.choice([b"R", b"R", b"R", b"Q", b"Q", b"X"]) + b"%d" % n + delim + raw)
         else:
             L = rng.choice(lens) if rng.random() < 0.75 else rng.randint(0, min(maxlen + 3, 80))
             L = max(0, L)
@@ -424,12 +473,14 @@ def gen_int_stream(rng, kind, cfg):
     for _ in range(rng.randint(0, 2 if lim > 1000 else 6)):
         L = rng.choice([0, 1, lim - 1, lim, lim, min(lim, 3)]) if rng.random() < 0.8 else rng.randint(0, min(lim, 40))
         L = max(0, L)
-        payload = bytes(rng.choice(b"ab\x00\xffP") for _ in range(L))
+        payload = bytes(rng.choice(b"ab\x00\xffPT") for _ in range(L))
         r = rng.random()
         if r < 0.06:
             payload = b"C"[:lim]
         elif r < 0.16:
             payload = b"P"[:lim]
+        elif r < 0.26:
+            payload = b"T"[:lim]
         items.append(len(payload).to_bytes(nb, "big") + payload)
     r = rng.random()
     if r < 0.35 and maxlen < top:
@@ -555,6 +606,12 @@ def classify(kind, cfg, raw_events, got, acceptable):
     e = exp[k] if k < len(exp) else None
     if g is not None and g[0] == "exception":
         return "%s-raises" % kind, "the receiver raised: %s" % (g[1],)
+    if g == ("nested",):
+        if kind in NBYTES and k and got[k - 1] == ("string", b"T"):
+            return ("intn-reentrant-resume-redelivers",
+                    "IntNStringReceiver.dataReceived is not re-entrant: resumeProducing() called from inside stringReceived re-parses the "
+                    "buffer from its start and delivers already delivered strings again (unbounded recursion if the application does it every time)")
+        return "%s-nested-delivery" % kind, "a message was delivered while the previous delivery callback was still running"
     if kind in ("lineonly", "line") and g == ("exceeded",):
         arg = next((x[1] for x in raw_events if x[0] == "exceeded"), b"")
         delim, maxlen = cfg[1], cfg[0]
@@ -602,6 +659,10 @@ def check_stream(ctx, rng, kind, cfg, stream, only_cuts=None):
             ctx.count("oversize_expected")
         elif e[0] == "raw":
             ctx.count("raw_switches")
+        elif e[0] in ("line", "string") and e[1] == b"T":
+            ctx.count("reentrant_toggles")
+        elif e[0] == "line" and e[1][:1] in b"XQ" and isinstance(interpret(e[1]), tuple):
+            ctx.count("raw_then_close_or_pause")
         elif e[0] in ("line", "string") and len(e[1]) == cfg[0]:
             ctx.count("lines_at_max")
         elif e == ("close",) and kind == "netstring" and ("exceeded",) not in exp:
@@ -645,6 +706,49 @@ def check_stream(ctx, rng, kind, cfg, stream, only_cuts=None):
 
 
 # ------------------------------------------------------------------------------------------------
+def check_reuse(ctx, rng, kind, cfg, first, second):
+    """Pattern 'state left over': the same protocol instance serves a second connection after the
+    first one ended in the middle of a message.  NetstringReceiver.makeConnection documents that it
+    (re)initialises the protocol, so there the second connection is judged against the reference;
+    the other receivers keep their buffer across makeConnection and the statement is silent about
+    re-use: run, counted, not judged."""
+    p, t = make(kind, cfg)
+    for piece in random_split(rng, first, 16):
+        if t.disconnecting:
+            break
+        try:
+            p.dataReceived(piece)
+        except Exception:
+            break
+    p.ev = []
+    p.paused = False
+    t2 = _T(p.ev)
+    p.makeConnection(t2)
+    for piece in (random_split(rng, second, 16) if rng.random() < 0.5 else [second]):
+        if t2.disconnecting:
+            break
+        try:
+            p.dataReceived(piece)
+            guard = 0
+            while getattr(p, "paused", False) and not t2.disconnecting and guard < 1000:
+                guard += 1
+                p.resumeProducing()
+        except Exception as e:
+            p.ev.append(("exception", "%s: %s" % (type(e).__name__, e)))
+            break
+    got = normalize(kind, p.ev)
+    acceptable = reference(kind, cfg, second)
+    ctx.evaluated()
+    if kind == "netstring":
+        ctx.count("reuse_runs_judged")
+        if got not in acceptable:
+            ctx.violation("netstring-state-leaks-into-next-connection", "a re-used NetstringReceiver does not frame the second connection's stream from a clean state",
+                          dict(witness(kind, cfg, second, (), got, acceptable), first_connection_stream=first))
+    else:
+        ctx.count("reuse_runs_unjudged")
+        ctx.seen("reuse_unjudged_outcomes", "%s: %s" % (kind, "clean" if got in acceptable else "residual of the first connection visible"))
+
+
 def check_sendrecv(ctx, rng, kind):
     """sendLine/sendString of random messages -> wire -> receiver (random split) == messages."""
     cfg, _ = gen_case(rng, kind)
@@ -667,7 +771,7 @@ def check_sendrecv(ctx, rng, kind):
             sender.sendLine(m)
         else:
             m = bytes(rng.randrange(256) for _ in range(L))
-            if m in (b"C", b"P"):
+            if m in (b"C", b"P", b"T"):
                 m = b"x"[:top]
             sender.sendString(m)
         msgs.append(m)
@@ -734,6 +838,18 @@ def run(ctx):
             ctx.sample({"receiver": kind, "config": cfg, "stream": stream, "events_whole_delivery": whole, "splits_run": nsplits})
         if i % 3 == 0:
             check_sendrecv(ctx, ctx.case_rng("sendrecv", i), kind)
+        if i % 4 < 2 and len(stream) > 2 and len(stream) < 5000:
+            r2 = ctx.case_rng("reuse", i)
+            k2 = "netstring" if i % 4 == 0 else kind
+            cfg2, first = (cfg, stream) if k2 == kind else gen_case(r2, k2)
+            second = gen_case(r2, k2)[1] if k2 != kind else stream
+            for _ in range(20):  # same config for both connections
+                c3, s3 = gen_case(r2, k2)
+                if c3 == cfg2 and s3:
+                    second = s3
+                    break
+            if first:
+                check_reuse(ctx, r2, k2, cfg2, first[: r2.randint(1, len(first))], second)
 
 
 def replay(ctx, w):
